@@ -60,4 +60,15 @@ theorem digit_facts (c : UInt8) (h : (params62.enc.digit? c).isSome = true) :
   apply u8_forall
   decide +kernel
 
+/-- valid armor bytes (alphabet and skip characters) are ASCII -/
+theorem valid_lt (c : UInt8) (hv : validByte params62 c = true) : c < 128 := by
+  revert c
+  apply u8_forall
+  decide +kernel
+
+theorem digit_lt (c : UInt8) (h : (params62.enc.digit? c).isSome = true) : c < 128 := by
+  revert c
+  apply u8_forall
+  decide +kernel
+
 end Saltpack.Proofs
